@@ -42,7 +42,7 @@ def tagsDistinct : List (Nat × GoType) → Bool
 
 mutual
 /-- Well-formed record types: integer widths ≤ 64, pointers to non-nullable targets, distinct keys
-per struct, `omitempty` only on nil-zero types, distinct tags per interface, no discards. -/
+(of encodable length) per struct, `omitempty` only on nil-zero types, distinct tags per interface, no discards. -/
 def okType : GoType → Bool
   | .uint bits => bits ≤ 64
   | .bool => true
@@ -58,7 +58,7 @@ def okType : GoType → Bool
   | .discard => false
 def okFields : List (Bytes × Bool × GoType) → Bool
   | [] => true
-  | (_, om, t) :: fs => (!om || nilZero t) && okType t && okFields fs
+  | (key, om, t) :: fs => (!om || nilZero t) && decide (key.length < 18446744073709551616) && okType t && okFields fs
 def okAlts : List (Nat × GoType) → Bool
   | [] => true
   | (tag, t) :: alts => decide (tag < 18446744073709551616) && okType t && okAlts alts
@@ -111,6 +111,30 @@ def wtAlt (cfg : DecCfg) : List (Nat × GoType) → Nat → GoVal → Bool
   | [], _, _ => false
   | (_, t) :: _, 0, v => wt cfg t v
   | _ :: alts, i + 1, v => wtAlt cfg alts i v
+end
+
+mutual
+/-- Sizes that CBOR can express: every length and integer below 2^64, opaque items well-formed.
+(Always true of a value held in memory; the counterpart of `Cbor.wf` on the Go side.) -/
+def fitsVal : GoVal → Bool
+  | .nil => true
+  | .unit => true
+  | .uint n => n < 18446744073709551616
+  | .bool _ => true
+  | .str s => s.length < 18446744073709551616
+  | .bytes b => b.length < 18446744073709551616
+  | .felt _ _ _ _ => true
+  | .raw c => c.wf
+  | .list xs => xs.length < 18446744073709551616 && fitsVals xs
+  | .struct vs => vs.length < 18446744073709551616 && fitsVals vs
+  | .map kvs => kvs.length < 18446744073709551616 && fitsPairs kvs
+  | .iface _ v => fitsVal v
+def fitsVals : List GoVal → Bool
+  | [] => true
+  | v :: vs => fitsVal v && fitsVals vs
+def fitsPairs : List (GoVal × GoVal) → Bool
+  | [] => true
+  | (k, v) :: kvs => fitsVal k && (fitsVal v && fitsPairs kvs)
 end
 
 end Juno.C07
